@@ -29,7 +29,20 @@ InstancesC01 ==
   \cup {[fam |-> "count", M |-> M, p |-> p] : M \in 0..5, p \in 1..3}
   \cup {[fam |-> "cliquecol", n |-> n, k |-> k, c |-> c] : n \in 0..3, k \in 0..2, c \in 0..2}
 
+RECURSIVE SeqOfSet(_)
+SeqOfSet(S) == IF S = {} THEN <<>> ELSE LET x == CHOOSE y \in S : TRUE IN <<x>> \o SeqOfSet(S \ {x})
+PairsUpTo(n) == {<<u, v>> \in (1..n) \X (1..n) : u < v}
+AllGraphs(n) == {[n |-> n, edges |-> SeqOfSet(S)] : S \in SUBSET PairsUpTo(n)}
+GraphsUpTo(n) == UNION {AllGraphs(k) : k \in 0..n}
+
+InstancesC02 ==
+       {[fam |-> "tseitin", G |-> G, ch |-> ch] : G \in GraphsUpTo(4), ch \in [1..4 -> BOOLEAN]}
+  \cup {[fam |-> "evencol", G |-> G] : G \in GraphsUpTo(4)}
+  \cup {[fam |-> "kclique", G |-> G, k |-> k] : G \in GraphsUpTo(4), k \in 0..3}
+  \cup {[fam |-> "domset", G |-> G, d |-> d] : G \in GraphsUpTo(3), d \in 1..3}
+
 Instances == CASE Scope = "C01" -> InstancesC01
+               [] Scope = "C02" -> InstancesC02
 
 Init == inst \in Instances
 Next == UNCHANGED inst
@@ -81,4 +94,48 @@ CliqueCol_Sat_iff ==
                                 LAMBDA i, v : t[2][<<i, v>>], LAMBDA v, l : t[3][<<v, l>>])
       IN  (\E t \in Vals(G[1]) \X Vals(G[2]) \X Vals(G[3]) : ok(t))
              <=> (k <= n /\ k <= c /\ (n = 0 \/ c >= 1))
+-----------------------------------------------------------------------------
+(* C02 *)
+
+\* Tseitin: 2^(|E|-|V|+components) solutions when every component has even total
+\* charge, none otherwise (charges beyond the vertex count are ignored).
+Tseitin_Count ==
+    inst.fam = "tseitin" =>
+      LET G == inst.G
+          ch == [v \in 1..4 |-> inst.ch[v]]
+          S == {val \in Vals(EdgeSet(G)) :
+                  TseitinObj(G, "list", ch, LAMBDA u, v : val[<<u, v>>])}
+          evenComp(C) == Cardinality({v \in C : ch[v]}) % 2 = 0
+          comps == Components(G)
+      IN  Cardinality(S) = IF \A C \in comps : evenComp(C)
+                           THEN Pow2(Cardinality(EdgeSet(G)) - G.n + Cardinality(comps))
+                           ELSE 0
+
+\* Even colouring (all degrees even): satisfiable iff every connected component has
+\* an even number of edges.
+EvenCol_Sat_iff ==
+    (inst.fam = "evencol" /\ EvenColDefined(inst.G)) =>
+      LET G == inst.G
+          edgesIn(C) == Cardinality({e \in EdgeSet(G) : e[1] \in C})
+      IN  (\E val \in Vals(EdgeSet(G)) : EvenColObj(G, LAMBDA u, v : val[<<u, v>>]))
+            <=> \A C \in Components(G) : edgesIn(C) % 2 = 0
+
+\* k-clique: with symmetry breaking one object per k-clique (as a set), without it k! per clique
+Clique_Count ==
+    inst.fam = "kclique" =>
+      LET G == inst.G  k == inst.k
+          K == CliqueGroups(G, k)[1]
+          cliques == {S \in SUBSET (1..G.n) : Cardinality(S) = k /\ \A u, v \in S : u # v => Adj(G, u, v)}
+          count(sb) == Cardinality({val \in Vals(K) : CliqueObj(G, k, sb, LAMBDA i, j : val[<<i, j>>])})
+      IN  /\ count(TRUE) = Cardinality(cliques)
+          /\ count(FALSE) = Fact(k) * Cardinality(cliques)
+          /\ (cliques # {}) <=> HasClique(G, k)
+
+\* dominating set: witnesses exist iff the domination number is at most d; monotone in d
+Domset_Monotone ==
+    inst.fam = "domset" =>
+      LET G == inst.G  d == inst.d
+      IN  /\ DomWitnesses(G, d) \subseteq DomWitnesses(G, d + 1)
+          /\ (G.n <= d) => (1..G.n) \in DomWitnesses(G, d)
+          /\ \A S \in DomWitnesses(G, d) : \A v \in 1..G.n : v \in S \/ \E u \in S : Adj(G, u, v)
 =============================================================================
